@@ -163,6 +163,12 @@ def _worker(arg):
         kw = dict(dtypes={"count": np.int64})
     cooler.create_cooler(path, make_bins(n), df, symmetric_upper=case["symm"], **kw)
     fkw = {"field": fld} if vkind == "field" else {}
+    # a divisive weight column (non-dyadic values, one masked bin) for the balanced-window consistency check below
+    kr = np.array([0.3 + 0.37 * k for k in range(n)], dtype=np.float64)
+    if n >= 3:
+        kr[n // 2] = np.nan
+    with h5py.File(path, "r+") as f:
+        f["bins"].create_dataset("KR", data=kr)
     with h5py.File(path, "r") as f:
         b1 = f["pixels/bin1_id"][:].tolist()
         b2 = f["pixels/bin2_id"][:].tolist()
@@ -244,6 +250,29 @@ def _worker(arg):
             res["nq"] += 1
             if not bool((a.astype(object) == e).all()) and len(res["fails"]) < 5:
                 res["fails"].append({"window": [i0, i1, j0, j1], "chunk": "2", "fill_lower": False, "got_dense": a.tolist(), "expected_dense": e.tolist()})
+        # balanced reads of a window are the same sub-block of the full balanced matrix too (C12 owns the values; here only
+        # "window == slice", in particular for windows whose row range equals the column range), dense and sparse
+        try:
+            with np.errstate(all="ignore"):
+                Fb = np.array(F, dtype=np.float64) / scale / np.outer(kr, kr)
+                selb = clr.matrix(balance="KR", chunksize=2, **fkw)
+                selbs = clr.matrix(balance="KR", sparse=True, chunksize=3, **fkw)
+                for kx, (i0, i1, j0, j1) in enumerate(wins):
+                    if not ((i0, i1) == (j0, j1) or kx % 9 == 0):
+                        continue
+                    res["nq"] += 2
+                    gb = np.asarray(selb[i0:i1, j0:j1], dtype=np.float64)
+                    gs = selbs[i0:i1, j0:j1].toarray().astype(np.float64)
+                    eb = Fb[i0:i1, j0:j1]
+                    okb = gb.shape == eb.shape and np.allclose(gb, eb, rtol=1e-12, atol=0, equal_nan=True)
+                    es = np.where(np.array(F, dtype=np.float64)[i0:i1, j0:j1] == 0, 0.0, eb)     # sparse output has no entry where nothing is stored
+                    oks = gs.shape == es.shape and np.allclose(gs, es, rtol=1e-12, atol=0, equal_nan=True)
+                    if not (okb and oks) and len(res["fails"]) < 5:
+                        res["fails"].append({"window": [i0, i1, j0, j1], "chunk": "2", "balanced": "KR (divisive)", "dense_ok": bool(okb), "sparse_ok": bool(oks),
+                                             "got_dense": gb.tolist(), "expected_dense": eb.tolist()})
+        except Exception as ex:
+            if len(res["fails"]) < 5:
+                res["fails"].append({"window": "balanced windows", "balanced": "KR (divisive)", "error": repr(ex)})
         # as_pixels with join=True: ids replaced by the coordinates of the pixel's own bins (oracle only)
         bt = make_bins(n)
         brow = [(str(bt["chrom"][k]), int(bt["start"][k]), int(bt["end"][k])) for k in range(n)]
